@@ -434,6 +434,14 @@ def b_detectors(ctx):
     for _ in range(100 if ctx.tier == 'quick' else 1000):
         # mixed scales: steps of 1e-9 next to steps of order one (creep before a reversal)
         near.append([float(rng.randrange(3)) + rng.randrange(3) * 1e-9 for _ in range(rng.randrange(5, 13))])
+    # extreme units: "every finite real-valued signal" includes magnitudes whose SQUARES leave the double range (1e160, 1e-160); the counting rules compare ranges,
+    # never products of ranges (added after seed C02-h compared squared ranges in the three-point kernel - equivalent over the reals, which is all the proof part
+    # sees: 'floats = reals' is its stated assumption)
+    for _ in range(60 if ctx.tier == 'quick' else 600):
+        base_ = [float(rng.randrange(6)) for _ in range(rng.randrange(4, 11))]
+        near.append([v * 1e160 for v in base_])
+        near.append([v * 1e-160 for v in base_])
+    near.append([v * 1e160 for v in (0.0, 5.0, 1.0, 4.0, 2.0, 3.0)])
     for s in near:
         if not ctx.mine():
             continue
